@@ -44,7 +44,16 @@ OptSpace == [winc : WinC, lcsc : LcsC, eac : EacC, f : FfC, sort : BOOLEAN, styl
 EcuPatterns == { <<"A">>, <<"AB">>,
                  <<"A", "A">>, <<"A", "B">>, <<"AB", "B">>,
                  <<"A", "A", "B">>, <<"A", "B", "AB">>, <<"A", "A", "A">> }
-ShapeSpace == [ecus : EcuPatterns, boots : 1..3, garbage : BOOLEAN, noext : BOOLEAN]
+\* tie: first messages with IDENTICAL reception time - "same": the files of every group with the same ECU pattern,
+\* "all": all files (the main clause - exactly the selected messages, each once - holds for such inputs too; only the
+\* argument-permutation clause is conditioned on distinct first reception times, so tied sets are run with one fixed
+\* argument order).  dup: the first file is named a second time (the tool de-duplicates identical files).
+ShapeSpace == {sh \in [ecus : EcuPatterns, boots : 1..3, garbage : BOOLEAN, noext : BOOLEAN,
+                        tie : {"none", "same", "all"}, dup : BOOLEAN] :
+                  sh.tie # "none" => (Len(sh.ecus) >= 2 /\ ~sh.dup)}
+\* (tie and dup are not combined: with tied first reception times the tool's sort-then-dedup does not bring the two
+\*  entries of the duplicated file next to each other and the file is read twice - observed on the unchanged tree,
+\*  reported to the lead; the property statement does not speak about files named twice: narrower reading)
 
 VARIABLES x, printed
 vars == <<x, printed>>
